@@ -44,6 +44,8 @@ def run(ck):
                    'LAPACK solve contract: a returned solution of an SPD system has small residual']
     ck.assumptions += ['training rows distinct, lambda > 0', 'tolerance = 200 n u (||K+lambda I|| ||alpha|| + ||Y||), u = 2^-52 / 2^-23']
     ck.check_theorems()
+    from harness import solveops
+    solveops.check_translation(ck)
     from harness import selectarith
     selectarith.check_translation(ck)
     rr = np.random.default_rng(ck.seed + 202)
